@@ -1369,6 +1369,18 @@ class Analyzer:
         return dead
 
     def for_loop(self, states: list[State], s: ast.For) -> list[State]:
+        if isinstance(s.iter, (ast.Tuple, ast.List)) and isinstance(
+                s.target, ast.Name) and not s.orelse and len(
+                s.iter.elts) <= 8 and not any(
+                isinstance(x, (ast.Break, ast.Continue))
+                for b in s.body for x in ast.walk(b)):
+            # a loop over a short literal list: one pass per entry
+            cur = states
+            for e in s.iter.elts:
+                for st in cur:
+                    self._bind(st, s.target, self.ev(st, e), s)
+                cur = self.block(cur, s.body)
+            return cur
         dead = self._dead_at_head(s)
         if dead:
             for st in states:
